@@ -46,6 +46,8 @@ def alpha_for(T):
     a.append(["nowerr", errno.EHOSTUNREACH, 0.0])
     a.append(["nowexc", 4, 1.2 * T])       # a late exception frame for an already completed request (idle, keep-alive)
     a.append(["nowexc", 6, 0.0])
+    a.append(["nowdup", 1.2 * T])          # a duplicated answer that arrives while the (kept-alive) socket is idle
+    a.append(["nowdup", 0.01 * T])
     a.append("excbad")                      # an exception frame damaged in transit (wrong checksum)
     return a
 
